@@ -668,7 +668,7 @@ func c17WriteCoq(path, idxPath string, cases []*c17Case, st *stats) ([]*c17Case,
 			c.pat.dump = dumpNFA(c.pat.nfa)
 			defined[c.pat.idx] = true
 			if c.pat.dump.ok {
-				fmt.Fprintf(&sb, "(* %s *)\nDefinition nfa_%d : nfa := %s.\n", strings.ReplaceAll(strings.ReplaceAll(fmt.Sprintf("%q", c.pat.pat), "(*", "( *"), "*)", "* )"), c.pat.idx, c.pat.dump.coq)
+				fmt.Fprintf(&sb, "(* %s *)\nDefinition nfa_%d : nfa := %s.\n", c16CommentSafe(fmt.Sprintf("%q", c.pat.pat)), c.pat.idx, c.pat.dump.coq)
 			}
 		}
 		if !c.pat.dump.ok {
